@@ -37,7 +37,12 @@ func (w *fileWriter) file(file *model.File) error {
 		w.line(`"github.com/basecomplextech/spec/proto/prpc"`)
 	}
 
+	used := usedImports(file, w.skipRPC)
 	for _, imp := range file.Imports {
+		// An import no generated declaration refers to would not compile in Go.
+		if !used[imp] {
+			continue
+		}
 		pkg := importPackage(imp)
 		// Imported types are referred to by the import name (the alias when given).
 		w.linef(`%v "%v"`, imp.Name, pkg)
@@ -161,4 +166,48 @@ func (w *fileWriter) service(def *model.Definition) error {
 
 func (w *fileWriter) serviceImpl(def *model.Definition) error {
 	return newServiceImplWriter(w.writer).serviceImpl(def)
+}
+
+// usedImports returns the imports which the generated code of a file refers to.
+func usedImports(file *model.File, skipRPC bool) map[*model.Import]bool {
+	used := make(map[*model.Import]bool)
+
+	var add func(typ *model.Type)
+	add = func(typ *model.Type) {
+		for typ != nil {
+			if typ.Import != nil {
+				used[typ.Import] = true
+			}
+			typ = typ.Element
+		}
+	}
+
+	for _, def := range file.Definitions {
+		switch def.Type {
+		case model.DefinitionMessage:
+			for _, field := range def.Message.Fields.List {
+				add(field.Type)
+			}
+
+		case model.DefinitionStruct:
+			for _, field := range def.Struct.Fields.Values() {
+				add(field.Type)
+			}
+
+		case model.DefinitionService:
+			if skipRPC {
+				continue
+			}
+			for _, m := range def.Service.Methods {
+				add(m.Request)
+				add(m.Response)
+				add(m.Subservice)
+				if m.Channel != nil {
+					add(m.Channel.In)
+					add(m.Channel.Out)
+				}
+			}
+		}
+	}
+	return used
 }
